@@ -2,7 +2,7 @@
 """Run a check against a scratch copy of /repo with a patch applied.
 
   tools/mutant.py run PATCH ID [--tier quick]      one patch, one property
-  tools/mutant.py sweep [--only ID] [--tier quick] [--jobs 3]   every selftest/mutants/*.patch and seeded/*/patch.diff
+  tools/mutant.py sweep [--only ID] [--match REGEX] [--tier quick] [--jobs 3]   every selftest/mutants/*.patch and seeded/*/patch.diff
 
 Scratch copies live under $TMPDIR (outside /repo and /verif) and are removed
 afterwards.  Evidence / replay files of these runs go into the scratch copy, so
@@ -71,6 +71,9 @@ def main():
         only = set(x.upper() for x in a[a.index("--only") + 1].split(","))
     jobs = int(a[a.index("--jobs") + 1]) if "--jobs" in a else 3
     todo = all_patches(only)
+    if "--match" in a:
+        rx = re.compile(a[a.index("--match") + 1])
+        todo = [t for t in todo if rx.search(os.path.relpath(t[0], HERE))]
     missed = 0
     with concurrent.futures.ThreadPoolExecutor(jobs) as ex:
         for r in ex.map(lambda x: run_one(x[0], x[1], tier, seed), todo):
